@@ -14,6 +14,7 @@ import (
 	"sync"
 	"time"
 
+	"github.com/btcsuite/btcd/chaincfg/v2"
 	"github.com/btcsuite/btcd/chainhash/v2"
 	"github.com/lightninglabs/neutrino/chainimport"
 	"github.com/lightninglabs/neutrino/headerfs"
@@ -77,6 +78,8 @@ func failureReason(err string) string {
 		return "not-connected"
 	case strings.Contains(l, "failed to validate block headers"):
 		return "invalid-header"
+	case strings.Contains(l, "failed to validate filter headers"):
+		return "invalid-filter-header"
 	case strings.Contains(l, "headers count mismatch"):
 		return "count-mismatch"
 	case strings.Contains(l, "start height mismatch"):
@@ -97,7 +100,7 @@ func failureReason(err string) string {
 
 // doImport calls the real entry point the way neutrino.ChainService.Start
 // does and recovers a panic of the code under test.
-func doImport(w *world, bs headerfs.BlockHeaderStore, fs headerfs.FilterHeaderStore,
+func doImport(p *chaincfg.Params, bs headerfs.BlockHeaderStore, fs headerfs.FilterHeaderStore,
 	bPath, fPath string, batch int) (err error, panicked string) {
 
 	defer func() {
@@ -108,7 +111,7 @@ func doImport(w *world, bs headerfs.BlockHeaderStore, fs headerfs.FilterHeaderSt
 	options := chainimport.ImportOptions{
 		BlockHeadersSource:      bPath,
 		FilterHeadersSource:     fPath,
-		TargetChainParams:       *w.g.P,
+		TargetChainParams:       *p,
 		TargetBlockHeaderStore:  bs,
 		TargetFilterHeaderStore: fs,
 		WriteBatchSizePerRegion: batch,
@@ -140,7 +143,7 @@ func runCase(m *material, scratch string) (out *outcome) {
 	if err := copyTemplate(w.tmpl, dir); err != nil {
 		return harness("copy template: %v", err)
 	}
-	st, err := openStores(dir, w.g.P)
+	st, err := openStores(dir, m.p)
 	if err != nil {
 		return harness("open stores: %v", err)
 	}
@@ -184,7 +187,23 @@ func runCase(m *material, scratch string) (out *outcome) {
 	out.File = fmt.Sprintf("block file: start height %d, %d whole header records; filter file: start height %d, %d records",
 		fv.start, len(fv.blocks), fv.fstart, len(fv.filters))
 
-	orc := &oracle{p: w.g.P, now: refNow}
+	orc := &oracle{p: m.p, now: refNow, cps: m.cps}
+	if len(m.cps) > 0 {
+		out.File += fmt.Sprintf("; hard-coded filter-header checkpoints in force at heights %s", describeCPs(m.cps))
+		out.count("filter_checkpoint_cases", 1)
+		out.count("filter_checkpoints_in_force", int64(len(m.cps)))
+		if len(m.p.Checkpoints) == 0 {
+			out.count("filter_checkpoint_cases_without_block_checkpoints", 1)
+		}
+		if h := cpContradiction(m.cps, fv); h >= 0 {
+			out.count("filter_checkpoint_cases_file_contradicts", 1)
+		} else {
+			out.count("filter_checkpoint_cases_file_agrees", 1)
+		}
+	}
+	if len(m.p.Checkpoints) > 0 {
+		out.count("cases_with_block_checkpoints", 1)
+	}
 	ctl := &faultCtl{op: sp.Fault, k: sp.FaultK}
 	fbs := &faultBlockStore{BlockHeaderStore: st.bs, ctl: ctl}
 	ffs := &faultFilterStore{FilterHeaderStore: st.fs, ctl: ctl}
@@ -192,14 +211,14 @@ func runCase(m *material, scratch string) (out *outcome) {
 	call := func(pre *snap) (*importCall, *snap, importRun) {
 		ctl.log = nil
 		injectedBefore := ctl.injected
-		ierr, panicked := doImport(w, fbs, ffs, bPath, fPath, sp.Batch)
+		ierr, panicked := doImport(m.p, fbs, ffs, bPath, fPath, sp.Batch)
 		out.count("imports", 1)
 		post := readAll(st.bs, st.fs)
 		out.count("store_reads", post.reads)
 		ic := &importCall{StoreCalls: ctl.log, BlockTip: post.bt(), FilterTip: post.ft(),
 			ReadErrors: post.Errs, Dangling: post.Dangling}
 		run := importRun{ok: ierr == nil && panicked == "", rbkFaulted: ctl.rbkFail}
-		run.mustFail = mustFailReason(&sp, pre, fv)
+		run.mustFail = mustFailReason(&sp, pre, fv, m.cps)
 		if ctl.injected > injectedBefore && run.mustFail == "" {
 			run.mustFail = "a store write it issued returned an error"
 		}
@@ -290,7 +309,7 @@ func runCase(m *material, scratch string) (out *outcome) {
 			if err := st.close(); err != nil {
 				return harness("close db: %v", err)
 			}
-			st2, err := openStores(dir, w.g.P)
+			st2, err := openStores(dir, m.p)
 			if err != nil {
 				out.Reopen = append(out.Reopen, verdict{Rule: "reopen-failed",
 					Text: "stores cannot be reopened after the import: " + err.Error()})
@@ -309,6 +328,18 @@ func runCase(m *material, scratch string) (out *outcome) {
 	}
 	out.count("headers_compared", orc.headersCompared)
 	out.fingerprint = fingerprint(&sp, pre, fv, result)
+	if c := cpClass(&sp, pre, fv, m.cps); c != "" {
+		out.fingerprint += " cp:" + c
+	}
+	if len(m.cps) > 0 {
+		contradicts := cpContradiction(m.cps, fv) >= 0
+		switch {
+		case contradicts && ic1.Result == "failure" && failureReason(ic1.Error) == "invalid-filter-header":
+			out.count("filter_checkpoint_contradiction_refused", 1)
+		case !contradicts && ic1.Result == "success":
+			out.count("filter_checkpoint_agreeing_file_imported", 1)
+		}
+	}
 	return out
 }
 
@@ -465,8 +496,19 @@ func signatureShape(sp *Spec) string {
 		detail = "invalid-" + sp.BadRule + "-at-" + pos
 	case sp.StoreFork >= 0:
 		detail = "block-overlap-disagrees"
+	case len(sp.FilterCPs) > 0 && specContradicts(sp):
+		detail = "file-contradicts-filter-checkpoint"
+	case len(sp.FilterCPs) > 0:
+		detail = "file-agrees-with-filter-checkpoints"
 	case len(sp.FilterDisagree) > 0:
 		detail = "filter-overlap-disagrees"
+	}
+	if len(sp.FilterCPs) > 0 || len(sp.BlockCPs) > 0 {
+		if len(sp.BlockCPs) > 0 {
+			detail += "+block-checkpoints"
+		} else {
+			detail += "+no-block-checkpoints"
+		}
 	}
 	f := "nofault"
 	if sp.Fault != "" {
@@ -488,10 +530,17 @@ func Run(r *evid.Run) {
 		"block or filter headers, one block header invalid in exactly one rule at file index 0 / first of a batch / " +
 		"middle / last, a malformed container (magic, type, version, counts, start, truncation, trailing garbage, " +
 		"missing file), the k-th block or filter store write failing (optionally with the rollback failing too)}. " +
+		"A further family runs under 1-3 hard-coded filter-header checkpoints installed for the case's (private) network " +
+		"magic, on parameters with and without block checkpoints: checkpoint heights at the file's first / middle / last " +
+		"height, first or last of a write batch, in the sampled or unsampled overlap, the first new height, below or above " +
+		"the file; the file's filter header there right or wrong (or stores and file agreeing with each other but not with " +
+		"the checkpoint); fixed scenarios plus seeded variants. " +
 		"Every case runs the real Import twice on real headerfs stores and reopens them. A case is non-trivial when " +
 		"Import was invoked and both stores were read back completely before and after; its fingerprint is (start " +
 		"relation to filter and block tip, end relation, batch class, overlap kind, corruption kind and position, store " +
-		"relation, injected fault, result kind).")
+		"relation, injected fault, result kind; for the checkpoint family also every checkpoint's position class and " +
+		"whether the file agrees with it, and whether block checkpoints exist).")
+	r.Assume("hard-coded filter-header checkpoints are put in force through the study's hook chainsync.VerifSetFilterCheckpoints, once for all cases before the first import and removed after the last; each such case has its own network magic, so no other case sees them")
 	r.Assume("headerfs stores' WriteHeaders/RollbackBlockHeaders are atomic when they return an error (injected failures return the error without touching the real store)")
 	r.Assume("the reference header validator (internal/ref, cross-checked against btcd) defines 'valid connected chain'; its clock is fixed at 2025-01-01 and the wall clock of the machine lies between 2025-01-01 and 2089, so both clocks judge every generated timestamp alike")
 	r.Assume("the stores' public read API (ChainTip, FetchHeaderByHeight, FetchHeader) reports what the stores hold")
@@ -555,8 +604,14 @@ func Run(r *evid.Run) {
 		}
 		specs, verbose = []Spec{sp}, true
 	default:
+		all := make([]Spec, 0, n)
 		for i := 0; i < n; i++ {
-			sp := sg.gen(i)
+			all = append(all, sg.gen(i))
+		}
+		// The filter-checkpoint family follows the rotating families
+		// (indices n..): fixed scenarios, then randomised ones.
+		all = append(all, cpSpecs(r.Seed, worlds, n, r.Pick(50, 2500))...)
+		for i, sp := range all {
 			if *flagOnly >= 0 && i != *flagOnly {
 				continue
 			}
@@ -564,6 +619,10 @@ func Run(r *evid.Run) {
 		}
 		verbose = *flagOnly >= 0
 	}
+	// Hard-coded filter-header checkpoints of the cases that have some: in
+	// force (each under the case's private network magic) from before the
+	// first import to after the last one.
+	removeCheckpoints := installCheckpoints(specs, worlds)
 
 	// One producer turns specs into headers (the generators are not
 	// thread-safe and the case list must be a pure function of the seed);
@@ -593,10 +652,16 @@ func Run(r *evid.Run) {
 	}
 	go func() { wwg.Wait(); close(results) }()
 
+	cpSeen := int64(0)
 	for out := range results {
 		report(r, out, verbose)
+		cpSeen += out.counters["filter_checkpoint_contradiction_refused"]
 	}
+	removeCheckpoints()
 	cleanup()
+	if !verbose && cpSeen == 0 && r.Violations() == 0 {
+		r.Inconclusive("no import of a file contradicting a hard-coded filter-header checkpoint was observed being refused")
+	}
 	if verbose {
 		return
 	}
@@ -621,6 +686,9 @@ func clamp(sp Spec, w *world) Spec {
 	if sp.Batch < 0 {
 		sp.Batch = 0
 	}
+	sp.FilterCPs = cleanHeights(sp.FilterCPs, 1, 1<<30)
+	sp.FilterCPAlt = cleanHeights(sp.FilterCPAlt, 1, 1<<30)
+	sp.BlockCPs = cleanHeights(sp.BlockCPs, 1, top+1)
 	return sp
 }
 
